@@ -1,0 +1,34 @@
+//go:build verif
+// +build verif
+
+package verifhook
+
+import "sync/atomic"
+
+// holder wraps the callback so that atomic.Value always stores one concrete type.
+type holder struct {
+	fn func(point string)
+}
+
+var callback atomic.Value // holder
+
+// SetCallback installs fn as the function called by Yield (nil removes it).
+// It is safe to call concurrently with Yield.
+func SetCallback(fn func(point string)) {
+	callback.Store(holder{fn: fn})
+}
+
+// Callback returns the currently installed callback (or nil).
+func Callback() func(point string) {
+	if h, ok := callback.Load().(holder); ok {
+		return h.fn
+	}
+	return nil
+}
+
+// Yield calls the installed callback (if any) with the name of the reached point.
+func Yield(point string) {
+	if fn := Callback(); fn != nil {
+		fn(point)
+	}
+}
